@@ -41,11 +41,12 @@
    Code sites (function -> steps):
      service.go Run/newConnection/Start          Boot
      connection.go reader (read, parse, handles) RRead; join                RJoinSend/RJoinAck
-                   reader msgChan <- msg          RPush; stop()              RStop/RStop2
+                   reader msgChan <- msg, reissuePackChan <- msg (0x8003: the same hand-over of a *Message
+                   to the writer, KMsg n)          RPush; stop()              RStop/RStop2
      session_manager.go join/leave/write closures MJoin / MLeave / MWrite
                    SendActiveMessage (write)      CCall / CRet
      connection.go write(): onActiveEvent         WAct; timer goroutine      TFire
-                   activeMsgCompleteChan          WCpl; msgChan              WMsg
+                   activeMsgCompleteChan          WCpl; msgChan, reissuePackChan (subPackReplyEvent = the default-reply branch)  WMsg
                    stopChan / onStopEvent         WSeeStop/WStopOut/WStopDrain/WExit *)
 From Coq Require Import List Arith Bool.
 From JT.Base Require Import Sched.
@@ -222,15 +223,17 @@ Fixpoint mon_run (m : mon) (tr : list ev) : option mon :=
 
 (* ================================================================ Part 3: the connection *)
 
-Record variant := { v_clear_handles : bool; v_log_serial : bool; v_share_header : bool }.
-Definition repaired : variant := {| v_clear_handles := false; v_log_serial := false; v_share_header := false |}.
+Record variant := { v_clear_handles : bool; v_log_serial : bool; v_share_header : bool; v_alias_buf : bool }.
+Definition repaired : variant :=
+  {| v_clear_handles := false; v_log_serial := false; v_share_header := false; v_alias_buf := false |}.
 
 Inductive mstage := MNone | MRead | MQ | MW | MC (i : nat).      (* not parsed | with the reader | in msgChan | with the writer | handed to caller i *)
 Inductive cstage := CNone | COpQ | CActQ | COut | CRepl (l : loc) | CDone (l : loc).
                       (* - | closure in operationFuncChan | in activeMsgChan | in the writer's record | answer l in replyChan | returned *)
 Inductive tstage := TNone | TW | TRun | TCpl | TBack | TStopped.
                       (* replyMsg: not made | made, no timer | with the sleeping timer | in activeMsgCompleteChan | back with the writer | timer left by stopChan *)
-Inductive jstage := JNone | JSent (n : nat) | JMgr (n : nat) | JAcked.
+Inductive jstage := JNone | JSent (n : nat) | JMgr (n : nat) | JAcked | JMgrRef (n : nat) | JRefused.
+                      (* - | join closure sent | executed: key free, registered | joined | executed: key taken, refused | told so *)
 Inductive lstage := LvNone | LvSent | LvMgr | LvStopped.
 Inductive sstage := SNone | SJoin | SMgr | SAct (i : nat) | SW.    (* where the session header is *)
 Inductive wstage := WRun | WStopping | WDone.
@@ -268,16 +271,21 @@ Definition set_hdr s x := {| booted := booted s; mst := mst s; cst := cst s; tst
 Inductive choice :=
 | Boot
 | RRead (n : nat) | RJoinSend (n : nat) | RJoinAck | RPush (n : nat) | RStop | RStop2
-| MJoin | MLeave | MWrite (i : nat)
+| MJoin (ok : bool) | MLeave | MWrite (i : nat)
 | CCall (i : nat) | CRet (i : nat)
 | WAct (i : nat) (wok timer : bool) | WMsg (n : nat) (resp : option nat) | WCpl (i : nat)
 | WSeeStop | WStopOut (i : nat) | WStopDrain (i : nat) | WExit
 | TFire (i : nat) (stop : bool).
 
-(* the reader is in its loop: not waiting for the manager, not stopping *)
+(* the reader is in its loop: not waiting for the manager, not refused, not stopping *)
 Definition reader_free (s : st) : bool :=
   booted s && match leavest s with LvNone => true | _ => false end
-           && match joinst s with JSent _ | JMgr _ => false | _ => true end.
+           && match joinst s with JSent _ | JMgr _ | JMgrRef _ | JRefused => false | _ => true end.
+
+(* the reader may return: from its loop, or because its join was refused *)
+Definition reader_can_stop (s : st) : bool :=
+  booted s && match leavest s with LvNone => true | _ => false end
+           && match joinst s with JSent _ | JMgr _ | JMgrRef _ => false | _ => true end.
 
 Definition is_mst (s : st) (n : nat) (x : mstage) : bool :=
   match mst s n, x with
@@ -319,27 +327,43 @@ Definition step (v : variant) (s : st) (c : choice) : option (st * list ev) :=
         else Some (set_sess (set_joinst s (JSent n)) SJoin,
                    [EAcc R LConn false; EAcc R (LMsg n) false; EAcc R LSessHdr true; ESend R KJoin [LSessHdr]])
       else None
-  | MJoin =>   (* the join closure: record[key] = &session{header: ...}; ch <- nil *)
+  | MJoin ok =>   (* the join closure: key free -> record[key] = &session{header: ...}; ch <- nil.  key taken (by
+                     another connection) -> ch <- _errKeyExist, the closure's header copy is dropped *)
       match joinst s with
-      | JSent n => Some (set_registered (set_sess (set_joinst s (JMgr n)) SMgr) true,
-                         [ERecv M KJoin; EAcc M LConn false; EAcc M LRegistry true; ESend M KJoinAck []])
+      | JSent n =>
+          if ok then Some (set_registered (set_sess (set_joinst s (JMgr n)) SMgr) true,
+                           [ERecv M KJoin; EAcc M LConn false; EAcc M LRegistry true; ESend M KJoinAck []])
+          else Some (set_sess (set_joinst s (JMgrRef n)) SMgr,
+                     [ERecv M KJoin; EAcc M LConn false; EAcc M LRegistry false; ESend M KJoinAck []])
       | _ => None
       end
-  | RJoinAck =>   (* <-ch; c.key = key; OnJoinEvent(msg, key, err) *)
+  | RJoinAck =>   (* <-ch; joined: c.key = key, c.joined = true; OnJoinEvent(msg, key, err); refused: the reader returns *)
       match joinst s with
       | JMgr n => Some (set_joinst s JAcked,
                         [ERecv R KJoinAck; EAcc R LKey true; EAcc R LConn false; EAcc R (LMsg n) false])
+      | JMgrRef n => Some (set_joinst s JRefused,
+                           [ERecv R KJoinAck; EAcc R LConn false; EAcc R (LMsg n) false])
       | _ => None
       end
   | RPush n =>   (* onReadExecutionEvent(msg); c.msgChan <- msg *)
       if reader_free s && is_mst s n MRead then
         Some (set_mst s n MQ, [EAcc R LConn false; EAcc R (LMsg n) false; ESend R (KMsg n) [LMsg n]])
       else None
-  | RStop =>   (* the reader returns: (defect: slog ... platformSerialNumber); stop(): leaveFunc(c.key) *)
-      if reader_free s then
-        Some (set_leavest s LvSent,
-              (if v_log_serial v then [EAcc R LSerial false] else []) ++
-              [EAcc R LConn false; EAcc R LKey false; ESend R KLeave []])
+  | RStop =>   (* the reader returns: (defect: slog ... platformSerialNumber); stop(): if c.joined { leaveFunc(c.key) }
+                  a connection that never joined (or was refused) does not go through the manager (fix 8f7d690) *)
+      if reader_can_stop s then
+        match joinst s with
+        | JAcked =>
+            Some (set_leavest s LvSent,
+                  (if v_log_serial v then [EAcc R LSerial false] else []) ++
+                  [EAcc R LConn false; EAcc R LKey false; ESend R KLeave []])
+        | _ =>
+            Some (set_leavest s LvStopped,
+                  (if v_log_serial v then [EAcc R LSerial false] else []) ++
+                  [EAcc R LConn false; EAcc R LKey false] ++
+                  (if v_clear_handles v then [EAcc R LHandles true] else []) ++
+                  [EAcc R LConn false; ESend R KStop []; EAcc R LBuf true])
+        end
       else None
   | MLeave =>   (* the leave closure: delete(record, key); close(ch) *)
       match leavest s with
@@ -412,7 +436,10 @@ Definition step (v : variant) (s : st) (c : choice) : option (st * list ev) :=
       else None
   | WMsg n resp =>   (* case msg := <-c.msgChan *)
       if wrun s && is_mst s n MQ then
-        let pre := [ERecv W (KMsg n); EAcc W LConn false; EAcc W (LMsg n) false; EAcc W LRecord false] in
+        (* (defect adede50: the message's bytes are a view into the reader's receive buffer, so reading the
+           message is reading the buffer; since that fix parse() hands out copies - C09's theorem) *)
+        let pre := [ERecv W (KMsg n); EAcc W LConn false; EAcc W (LMsg n) false] ++
+                   (if v_alias_buf v then [EAcc W LBuf false] else []) ++ [EAcc W LRecord false] in
         let reply :=   (* defaultReplyEvent: ReplyBody, header.ReplyID = ..., curSeq, conn.Write, ExtensionFields *)
           Some (set_mst s n MW, pre ++ [EAcc W (LMsg n) true; EAcc W LSerial true; EAcc W LRecord true]) in
         match resp with
@@ -456,9 +483,10 @@ Definition step (v : variant) (s : st) (c : choice) : option (st * list ev) :=
 (* ---------------- the access-site table (tie (i)): which goroutine runs which function of package
    service, and which abstract location each field of connection / packageParse / sessionManager /
    session / ActiveMessage is.  The harness lists every selector on these types in /repo's source and
-   asks, through the oracle, whether (function, type, field, read/write) is covered by a row here;
-   Proofs/Race_proofs.v proves that every row's (goroutine class, location, mode) is an access that
-   some step of the model above performs. *)
+   asks, through the oracle, whether (function, type, field, read/write) is covered: the goroutine class
+   reaching the function (Part 5), the location class of the field (field_table) and [performs], which is
+   membership in [model_acc] - the accesses along [cover_sched]; Props/C18.v: C18_model_acc_exact shows that
+   [model_acc] is exactly the set of (class, location, mode) that ANY schedule of the model performs. *)
 Inductive gclass := GMain | GMgr | GReader | GWriter | GCaller | GTimer.
 
 Definition class_of (t : tid) : gclass :=
@@ -508,6 +536,7 @@ Definition field_table : list (string * string * lclass) :=
     ("connection", "joinFunc", XConn); ("connection", "leaveFunc", XConn); ("connection", "filter", XConn);
     ("connection", "terminalEvent", XConn);
     ("connection", "handles", XHandles); ("connection", "platformSerialNumber", XSerial); ("connection", "key", XKey);
+    ("connection", "joined", XKey);
     ("packageParse", "historyData", XBuf); ("packageParse", "subcontractingRecord", XBuf);
     ("packageParse", "timeoutRecord", XBuf);
     ("packageComplete", "createTime", XBuf); ("packageComplete", "updateTime", XBuf); ("packageComplete", "initHeader", XBuf);
@@ -549,7 +578,7 @@ Arguments lookup_field {key} keqb ty fld t.
 
 (* a schedule in which every kind of step of the model fires at least once *)
 Definition cover_sched : list choice :=
-  [Boot; RRead 0; RJoinSend 0; MJoin; RJoinAck; RPush 0; CCall 0; MWrite 0; WMsg 0 None; WAct 0 true true;
+  [Boot; RRead 0; RJoinSend 0; MJoin true; RJoinAck; RPush 0; CCall 0; MWrite 0; WMsg 0 None; WAct 0 true true;
    RRead 1; RPush 1; CCall 1; MWrite 1; WAct 1 true true; WMsg 1 (Some 0); CRet 0; TFire 0 false; TFire 1 false;
    WCpl 0; WCpl 1; CRet 1; CCall 4; MWrite 4; WAct 4 false false; CRet 4; CCall 5; MWrite 5; WAct 5 true true;
    CCall 6; MWrite 6; WAct 6 true false; CCall 2; MWrite 2; RStop; MLeave; CCall 3; MWrite 3; RStop2; TFire 5 true;
@@ -563,7 +592,10 @@ Fixpoint acc_classes (tr : list ev) : list (gclass * lclass * bool) :=
   end.
 
 (* every (goroutine class, location class, mode) the model performs *)
-Definition model_acc : list (gclass * lclass * bool) := acc_classes (trace (step repaired) init cover_sched).
+(* computed once (a literal list), so that nothing that mentions it has to re-run the model;
+   Race_proofs.model_acc_is_cover: it IS acc_classes (trace (step repaired) init cover_sched) *)
+Definition model_acc : list (gclass * lclass * bool) :=
+  Eval vm_compute in acc_classes (trace (step repaired) init cover_sched).
 
 Definition performs (g : gclass) (x : lclass) (w : bool) : bool :=
   existsb (fun a => match a with (g', x', w') => gclass_eqb g' g && lclass_eqb x' x && (w' || negb w) end) model_acc.
